@@ -1,6 +1,6 @@
 (* C22 — every backend enforces the same OKL rules: the statements.
    Vocabulary: Model.v (okl::kernelIsValid and oklForStatement transcribed over an abstract kernel
-   tree; `fixed` = the source with fixes/C22-1..5 applied, `pinned` = the source as found),
+   tree; `fixed` = the source with fixes/C22-1..5 and C22-7 applied, `pinned` = the source as found),
    Spec.v (the rules written structurally: Rules, rules_b), Statements.v (quirk_free).
    Every proof is in Proofs*.v; this file only states, cites and prints assumptions.
    That the seven translators call this checker is the differential tie of props/C22.py. *)
@@ -15,7 +15,8 @@ Import ListNotations.
    void return type; at least one @outer and one @inner loop; every OKL loop carries one attribute
    and has a valid header; under each outermost OKL loop every maximal OKL loop path is
    outer^a inner^b with the same a, b >= 1 (no @inner outside @outer, no @outer inside @inner, no
-   mismatch across branches); @shared / @exclusive declared inside @outer and outside @inner,
+   mismatch across branches) and at most 3 of each (the launch grid has 3 dimensions);
+   @shared / @exclusive declared inside @outer and outside @inner,
    @shared an array with constant extents, both used only inside @inner; no break / continue whose
    target is an OKL loop. *)
 Theorem checker_iff_rules : forall k : kernel,
@@ -46,9 +47,10 @@ Print Assumptions oracle_is_rules.
 
 (* The checker as pinned in /repo (and every partially repaired variant v).  The full statement
      forall k, kernelIsValid pinned k = Some true <-> Rules k
-   is false (the five *_refuted theorems below); it holds for the kernels that avoid the defects:
+   is false (the *_refuted theorems below); it holds for the kernels that avoid the defects:
    no `void *` return type, no OKL loop with both attributes, with `n += it` as update or with a
-   constant step <= 0, and no continue below a switch. *)
+   constant step <= 0, at most 3 nested @outer / @inner loops, and no continue that reaches an OKL
+   loop through a switch. *)
 Theorem checker_iff_rules_pinned_partial : forall (v : variant) (k : kernel),
   quirk_free k -> (kernelIsValid v k = Some true <-> Rules k).
 Proof. exact ProofsPinned.checker_any_variant_partial. Qed.
@@ -116,6 +118,12 @@ Proof.
                                             (UBin BAddEq SLeft (Some 0%Z))) [other]]]).
 Qed.
 Print Assumptions zero_step_dies_refuted.
+
+(* four nested @inner loops: accepted; the launchers then write index 3 of an int[3] *)
+Theorem depth_unchecked_refuted :
+  exists k, kernelIsValid pinned k = Some true /\ ~ Rules k.
+Proof. refute (mkKernel RVoid [outer_ [inner_ [inner_ [inner_ [inner_ [other]]]]]]). Qed.
+Print Assumptions depth_unchecked_refuted.
 
 (* ------------------------------------------------------------------ non-vacuity *)
 
